@@ -2,7 +2,7 @@
 import ast
 
 from ..loader import AnalysisError, attr_path, src, walk_no_nested_defs, norm_stmt, call_name
-from ..symx import SymX, classify, show, C, TRUE, FALSE, simp, is_const, mk_add, mk_mul, negate
+from ..symx import SymX, classify, show, C, TRUE, FALSE, simp, is_const, mk_add, mk_mul, negate, strip_perm
 from ..nf import SELF_NEXT, SF
 from . import kernels as K
 from . import C01, C03, shared
@@ -90,24 +90,39 @@ def r1_pipeline(ctx, chk, rule="C02.1"):
         chk.violation(rule, f.where(psg), "pruning can run after total rewards were solved", expected="prune before solve_total_rewards",
                       found="path from solve_total_rewards to pruning", construct="solve() pruning after rewards")
     # results read after the reward solve, from the solver's own state list
-    sx = SymX(ctx, f, "StochasticGame", inline_depth=0).run()
+    solve_slot(ctx, chk, rule, 2, ER, "solve_total_rewards", "expected rewards")
+
+
+def solve_slot(ctx, chk, rule, slot, field, after, what):
+    """solve()[slot] must be [state.<field> for state in state_list], read after the call of solver.<after>()."""
+    from ..nf import Kernel
+    f = ctx.func(SOLVE)
+    cfg = ctx.cfg(f)
+    calls = calls_of(f, after)
+    k = ctx.cache.get("solve_kernel")
+    if k is None:
+        k = ctx.cache["solve_kernel"] = Kernel(ctx, SOLVE, "StochasticGame")
+    sx = k.sx
     ret = sx.ret
-    if ret[0] != "tup" or len(ret[1]) < 8:
-        chk.undecided(rule, where, "solve() does not return the 8-tuple: %s" % show(ret))
+    where = f.where()
+    if ret[0] != "tup" or len(ret[1]) <= slot or len(calls) != 1:
+        chk.undecided(rule, where, "solve() does not return a tuple with slot %d / %d calls of %s" % (slot, len(calls), after))
         return
-    rewards_t = ret[1][2]
-    if rewards_t[0] == "compr":
-        L = sx.loops[rewards_t[1]]
-        comp_node = L.node
-        good_src = L.source == sx.final.env.get("state_list") or L.source == ("mcall", ("v", "self"), "init_states", (), ())
-        if cfg.dominates(str_, comp_node) and L.elt == ("attr", ("elem", L.id), ER) and not L.filters and good_src:
-            chk.ok(rule, f.where(comp_node), "solve()[2] = [state.expected_rewards for state in state_list], read after solve_total_rewards()")
-        else:
-            chk.violation(rule, f.where(comp_node), "rewards are read as `%s` over `%s`%s" % (show(L.elt), show(L.source), "" if cfg.dominates(str_, comp_node) else " BEFORE the reward solve"),
-                          expected="[state.expected_rewards for state in state_list] after solve_total_rewards()", found=src(comp_node),
-                          construct="solve() rewards read")
+    t = ret[1][slot]
+    le = k.listexpr(t)
+    if le is None:
+        chk.undecided(rule, where, "solve()[%d] (%s) is `%s`" % (slot, what, show(t)))
+        return
+    node = sx.loops[t[1]].node
+    source, flt, elt, whole = le
+    slist = sx.final.env.get("state_list")
+    good_src = slist is not None and source in (slist, ("mcall", ("v", "self"), "init_states", (), ()))
+    if cfg.dominates(calls[0], node) and elt == ("attr", ("e",), field) and flt == TRUE and good_src and whole:
+        chk.ok(rule, f.where(node), "solve()[%d] (%s) = [state.%s for state in state_list], read after %s()" % (slot, what, field, after))
     else:
-        chk.undecided(rule, where, "solve()[2] is `%s`" % show(rewards_t))
+        chk.violation(rule, f.where(node), "%s are reported as `%s` over `%s`%s%s" % (
+            what, show(elt), show(source), "" if flt == TRUE else " where " + show(flt), "" if cfg.dominates(calls[0], node) else " BEFORE %s()" % after),
+            expected="[state.%s for state in state_list] after %s()" % (field, after), found=norm_stmt(cfg.stmt_of(node)), construct="solve() slot %d" % slot)
 
 
 def shared_is_log(s):
@@ -184,7 +199,7 @@ def r3_sweep(ctx, chk, rule="C02.3"):
         return
     f, sx, W, F, fo, where = r["f"], r["sx"], r["W"], r["F"], r["fold"], r["where"]
     slist = ("attr", ("v", "self"), "state_list")
-    if F.source != slist:
+    if strip_perm(F.source) != slist:
         chk.violation(rule, where, "the reward sweep iterates `%s`, not the whole state list" % show(F.source), expected="for state in self.state_list",
                       found=show(F.source), construct="value_iteration_total_rewards domain")
         return
